@@ -133,3 +133,100 @@ example : lookup (2 : Int) (mset [((1 : Int), (10 : Int)), (2, 20)] 2 99) = some
 example : NodupKeys [((1 : Int), (10 : Int)), (2, 20)] := by simp [NodupKeys]
 
 end CM
+
+namespace CM
+open CM.Assoc
+
+variable {K V : Type} [DecidableEq K] [Inhabited K] [Inhabited V] [DecidableEq V]
+
+theorem specAfterRemove_of (m post : List (K × V)) (ks : List K) (hm : NodupKeys m) (hp : NodupKeys post)
+    (hl : ∀ k', lookup k' post = if k' ∈ ks then none else lookup k' m) : specAfterRemove m post ks = true := by
+  unfold specAfterRemove
+  simp only [Bool.and_eq_true, List.all_eq_true, decide_eq_true_eq, Bool.or_eq_true, Bool.not_eq_true',
+    beq_iff_eq, List.contains_eq_mem]
+  refine ⟨⟨hp, ?_⟩, ?_⟩
+  · intro p hpm
+    have h1 := lookup_of_mem hp hpm
+    have h2 := hl p.1
+    rw [h1] at h2
+    by_cases hk : p.1 ∈ ks
+    · simp [hk] at h2
+    · simp only [hk, if_false] at h2
+      exact ⟨by simpa using hk, h2.symm⟩
+  · intro p hpm
+    have h1 := lookup_of_mem hm hpm
+    by_cases hk : p.1 ∈ ks
+    · exact Or.inl (by simpa using hk)
+    · right
+      have h2 := hl p.1
+      simp only [hk, if_false] at h2
+      rw [h2, h1]
+
+/-- **Go-map refinement, one step**: every call of the Map model is allowed by the executable
+    specification that also judges the real observations (`mapAllowed`), for every map with
+    distinct keys and every operation. -/
+theorem C14_step_refines (m : List (K × V)) (h : NodupKeys m) (op : MOp K V) :
+    mapAllowed m op (mapStep m op) = true := by
+  cases op with
+  | setValue k v =>
+    simp only [mapAllowed, mapStep, specAfterSet, beq_self_eq_true, Bool.true_and, Bool.and_eq_true, List.all_eq_true,
+      Bool.or_eq_true, decide_eq_true_eq, beq_iff_eq]
+    have hp := nodup_mset m k v h
+    refine ⟨⟨⟨hp, by rw [lookup_mset]; simp⟩, ?_⟩, ?_⟩
+    · intro p hpm
+      have h1 := lookup_of_mem hp hpm
+      rw [lookup_mset] at h1
+      by_cases hk : p.1 = k
+      · exact Or.inl hk
+      · exact Or.inr (by simpa [hk] using h1)
+    · intro p hpm
+      have h1 := lookup_of_mem h hpm
+      by_cases hk : p.1 = k
+      · exact Or.inl hk
+      · right; rw [lookup_mset]; simpa [hk] using h1
+  | getValue k => simp [mapAllowed, mapStep, mapGetValue]
+  | getValues ks => simp [mapAllowed, mapStep, mapGetValue]
+  | getKeys => simp [mapAllowed, mapStep, List.isPerm_iff]
+  | removeValue k =>
+    have hr := C14_remove m k
+    have hn : NodupKeys (mapRemoveValue m k).2 := by
+      unfold mapRemoveValue; cases lookup k m <;> simp [h, nodup_mremove]
+    simp only [mapAllowed, mapStep, Bool.and_eq_true, beq_iff_eq]
+    refine ⟨by rw [(hr k).1], ?_⟩
+    apply specAfterRemove_of m _ [k] h hn
+    intro k'
+    rw [(hr k').2]; simp
+  | removeValues ks =>
+    have hr := C14_removeValues ks m
+    have hn : NodupKeys (mapRemoveValues m ks).2 := by
+      have := C14_step_nodup m h (.removeValues ks)
+      simpa [mapStep, Assoc.mapAfter] using this
+    simp only [mapAllowed, mapStep, Bool.and_eq_true, beq_iff_eq]
+    refine ⟨by rw [(hr default).1], ?_⟩
+    apply specAfterRemove_of m _ ks h hn
+    intro k'
+    exact (hr k').2
+  | removeAll => simp [mapAllowed, mapStep]
+  | asArray => simp [mapAllowed, mapStep, List.isPerm_iff]
+  | iterate => simp [mapAllowed, mapStep, List.isPerm_iff]
+  | getSize => simp [mapAllowed, mapStep]
+  | isEmpty => simp [mapAllowed, mapStep]
+  | make ps =>
+    have hn := (C14_make_last_wins ps default).2
+    simp only [mapAllowed, mapStep, beq_self_eq_true, Bool.true_and, Bool.and_eq_true, List.all_eq_true, beq_iff_eq]
+    refine ⟨⟨by simpa [NodupKeys] using hn, ?_⟩, ?_⟩
+    · intro p hpm
+      have h1 := lookup_of_mem hn hpm
+      rw [(C14_make_last_wins ps p.1).1] at h1
+      exact h1
+    · intro p hpm
+      rw [(C14_make_last_wins ps p.1).1]
+      -- p occurs in ps, hence in its reverse: the lookup finds some value
+      have : ∃ q ∈ ps.reverse, q.1 = p.1 := ⟨p, by simpa using hpm, rfl⟩
+      cases hl : lookup p.1 ps.reverse with
+      | some v => rfl
+      | none =>
+        obtain ⟨q, hq, hqk⟩ := this
+        exact absurd hqk (lookup_none_iff.mp hl q hq)
+
+end CM
